@@ -47,11 +47,11 @@ type boundBuffer struct {
 	varID   uint32
 }
 
-func sc(bits uint64) Value   { return Value{K: kScalar, Bits: bits} }
-func poisonSc() Value        { return Value{K: kScalar, Poison: true} }
-func boolV(b bool) Value     { return Value{K: kScalar, Bits: b2u(b)} }
-func comp(es []Value) Value  { return Value{K: kComposite, Elems: es} }
-func ptrV(p *Pointer) Value  { return Value{K: kPointer, Ptr: p} }
+func sc(bits uint64) Value  { return Value{K: kScalar, Bits: bits} }
+func poisonSc() Value       { return Value{K: kScalar, Poison: true} }
+func boolV(b bool) Value    { return Value{K: kScalar, Bits: b2u(b)} }
+func comp(es []Value) Value { return Value{K: kComposite, Elems: es} }
+func ptrV(p *Pointer) Value { return Value{K: kPointer, Ptr: p} }
 func b2u(b bool) uint64 {
 	if b {
 		return 1
